@@ -714,7 +714,8 @@ func (d *urlValuesDecoder) DecodeObject(param string, sm *openapi3.Serialization
 		// only unrelated query parameters were seen: the parameter is absent
 		return nil, false, nil
 	}
-	return val, found, nil
+	// values that went into the object through additionalProperties make it present as well
+	return val, found || len(val) > 0, nil
 }
 
 // headerParamDecoder decodes values of header parameters.
